@@ -33,7 +33,7 @@ def thresholds(tier):
 
 
 def knobs_for(rng):
-  return {"depth": rng.choice([0, 1, 1, 2]), "max_children": rng.choice([1, 2, 3]), "p_ff": 0.15, "p_connect": rng.choice([0.6, 0.8]),
+  return {"depth": rng.choice([0, 1, 1, 2]), "max_children": rng.choice([1, 2, 3]), "p_ff": 0.15, "p_connect": rng.choice([0.6, 0.8]), "p_connect_reset": rng.choice([0, 0.4]),
           "p_split": rng.choice([0.4, 0.7]), "p_struct": 0.4, "max_sigs": rng.choice([4, 6]), "expr_depth": 1, "p_if": 0.1,
           "p_nested_field": rng.choice([0, 0.3]), "p_list_field": rng.choice([0, 0.3]), "p_func": rng.choice([0, 0.3]), "p_shadow": 0.3, "p_nested_slice": rng.choice([0, 0.5]), "p_omit_bounds": rng.choice([0, 0.6]), "p_vfunc": rng.choice([0, 0.4]), "p_subclass": rng.choice([0, 0.5])}
 
